@@ -113,6 +113,12 @@ func C02(tier rt.Tier) int {
 			lens = spans(0, 8300, 16370, 16400, 32750, 32790, 65500, 65600, 1<<20-8, 1<<20+8)
 		}
 		sizeSweep(rep, "canonical-root", lens, []StoreKind{Mem, LevelP}, 1, canonicalOracle, tab)
+		widthSweep(rep, "canonical-root", []StoreKind{Mem, LevelP}, 1, func(w *World) string {
+			if f := canonicalOracle(w); f != "" {
+				return f
+			}
+			return tab.check(w)
+		})
 	}
 	rep.Set("distinct_roots", len(tab.m))
 	rep.Set("rule", "BFS over all histories at a fixed version (inserts, overwrites, deletes, delete-then-reinsert, interior-path values, save+reopen); at every state GetRoot() must equal an independent canonical-trie hasher (own SHA3, own encoder, shares no code with core/util) applied to the model content, every canonical node must be stored under its hash with byte-identical encoding, and root<->content must be a bijection over all visited states")
@@ -264,6 +270,7 @@ func C14(tier rt.Tier) int {
 			lens = spans(0, 4200, 65500, 65600, 1<<20-4, 1<<20+4, util.MPTMaxAllowableNodeSize-1, util.MPTMaxAllowableNodeSize)
 		}
 		sizeSweep(rep, "stored-under-own-hash", lens, []StoreKind{Mem, LevelP}, 3, storeOracle, nil)
+		widthSweep(rep, "stored-under-own-hash", []StoreKind{Mem, PDirect}, 3, storeOracle)
 	}
 	rep.RunVariant()
 	rep.Set("rule", "BFS over all histories with separator-laden/binary values and negative/zero/huge versions on memory, layered, doubly layered and persistent(stand-in) stores, the trie also sitting directly on the persistent store; at every state every node of every store level must be keyed by GetHashBytes(), CreateNode(Encode(n)) must have the same hash and encoding, and a trie re-read from the store must reference every node by its recomputed hash")
